@@ -439,6 +439,7 @@ pub fn minimise<E: Engine>(e: &E, case: E::Case, v: Violation, work: &Path, budg
     let mut cur = case;
     let mut curv = v;
     let mut execs = 0;
+    let mut spent: u64 = 0;
     MINIMISING.store(true, Ordering::SeqCst);
     let r = (|| loop {
         let mut progressed = false;
@@ -448,6 +449,11 @@ pub fn minimise<E: Engine>(e: &E, case: E::Case, v: Violation, work: &Path, budg
             }
             if case_size(&cand) >= case_size(&cur) {
                 continue;
+            }
+            // a deterministic cost budget as well: executions of megabyte cases are slow
+            spent += case_size(&cand) as u64;
+            if spent > 300_000_000 {
+                return (cur, curv, execs);
             }
             execs += 1;
             let mut st = Stats::default();
@@ -540,6 +546,7 @@ pub fn run_batch<E: Engine>(e: &E, o: &Opts) -> Outcome {
     let trace = std::env::var("VSIM_TRACE").is_ok();
     let chunk = e.chunk().max(1);
     let nchunks = (o.runs + chunk - 1) / chunk;
+    let first_run: u64 = o.extra.get("first").and_then(|s| s.parse().ok()).unwrap_or(0);
     let next = AtomicU64::new(0);
     let total = Mutex::new(Stats::default());
     let digests: Mutex<Vec<(u64, u64)>> = Mutex::new(Vec::new());
@@ -559,6 +566,8 @@ pub fn run_batch<E: Engine>(e: &E, o: &Opts) -> Outcome {
                         break;
                     }
                     for run in c * chunk..((c + 1) * chunk).min(o.runs) {
+                        // development aid: `--first N` shifts the run indices (run k of a shifted batch = run N+k)
+                        let run = run + first_run;
                         let case = e.generate(o.seed, run);
                         if run < 3 {
                             samples.lock().unwrap().insert(run, e.sample(&case));
